@@ -340,6 +340,42 @@ func (b *Backend) respond(c net.Conn, bh Behaviour, s *Seen) bool {
 		default:
 			c.Close()
 		}
+	case "pause": // k bytes, a pause of StallMs, then the rest in ChunkSz pieces 20 ms apart, proper end
+		if bh.Chunked {
+			w([]byte(head("Transfer-Encoding: chunked\r\n")))
+			if k > 0 {
+				chunked(body[:k])
+			}
+		} else {
+			w([]byte(head(fmt.Sprintf("Content-Length: %d\r\n", len(body)))))
+			wb(body[:k])
+		}
+		time.Sleep(time.Duration(bh.StallMs) * time.Millisecond)
+		rest := body[k:]
+		sz := bh.ChunkSz
+		if sz <= 0 {
+			sz = len(rest)
+		}
+		for len(rest) > 0 {
+			n := sz
+			if n > len(rest) {
+				n = len(rest)
+			}
+			if bh.Chunked {
+				w([]byte(fmt.Sprintf("%x\r\n", n)))
+				wb(rest[:n])
+				w([]byte("\r\n"))
+			} else {
+				wb(rest[:n])
+			}
+			rest = rest[n:]
+			if len(rest) > 0 {
+				time.Sleep(20 * time.Millisecond)
+			}
+		}
+		if bh.Chunked {
+			w([]byte("0\r\n\r\n"))
+		}
 	case "shortcl": // declares len(body) but sends only k bytes then closes cleanly
 		w([]byte(head(fmt.Sprintf("Content-Length: %d\r\n", len(body)))))
 		wb(body[:k])
